@@ -16,6 +16,8 @@
  *   h_addr maskr SEED COUNT           random pairs sharing a random-length prefix
  *   h_addr strs  ALPHABET MAXLEN LO HI [ALL]   all strings over ALPHABET, global index LO..HI
  *   h_addr lines                      cases read from stdin: "<tag> <fam> <i> <code> <code> ..."
+ *   h_addr addr  G1 .. G8             one explicit address      (replays)
+ *   h_addr mask1 A1 .. A8 M1 .. M8    one explicit address pair (replays)
  */
 #include "modules/iauth.h"
 #include <arpa/inet.h>
@@ -449,12 +451,23 @@ int main(int argc, char **argv)
             }
             mask_case("maskr", i, -1, p, g, gm);
         }
+    } else if (!strcmp(mode, "addr") && argc == 10) {      /* one explicit address (replays) */
+        for (i = 0; i < 8; i++)
+            g[i] = (unsigned)atol(argv[2 + i]);
+        addr_case("rnd", 0, g);
+    } else if (!strcmp(mode, "mask1") && argc == 18) {     /* one explicit pair (replays) */
+        unsigned int gm[8];
+        for (i = 0; i < 8; i++) {
+            g[i] = (unsigned)atol(argv[2 + i]);
+            gm[i] = (unsigned)atol(argv[10 + i]);
+        }
+        mask_case("maskr", 0, -1, 0, g, gm);
     } else if (!strcmp(mode, "strs") && argc >= 6) {
         strs(argv[2], atoi(argv[3]), atol(argv[4]), atol(argv[5]), argc > 6);
     } else if (!strcmp(mode, "lines")) {
         lines();
     } else {
-        fprintf(stderr, "usage: h_addr pat|v4|edge|rnd|mask|maskr|strs|lines ...\n");
+        fprintf(stderr, "usage: h_addr pat|v4|edge|rnd|mask|maskr|strs|lines|addr|mask1 ...\n");
         return 2;
     }
     printf("{\"e\":\"end\",\"n\":%lu}\n", n_cases);
